@@ -226,8 +226,21 @@ def run_case(case, ctx):
         D._OBS.clear()
         try:
             with np.errstate(all='ignore'):
-                hd, dinfo = nd.Hessdiag(f, method=method, order=case['hd_order'], step=D.build_step(nd, case['step']),
-                                        full_output=True)(xin)
+                if case['seed'] % 3 == 0:
+                    # the object has been used with another method before and reaches this one through the setter
+                    m0 = [mm_ for mm_ in ('forward', 'backward', 'central', 'complex', 'multicomplex') if mm_ != method][case['seed'] % 4]
+                    hobj = nd.Hessdiag(f, method=m0, order=case['hd_order'], step=D.build_step(nd, case['step']), full_output=True)
+                    try:
+                        hobj(xin)
+                    except Exception:
+                        pass
+                    hobj.method = method
+                    D._OBS.clear()
+                    ctx.count('hessdiag_method_set_on_a_used_object')
+                else:
+                    hobj = nd.Hessdiag(f, method=method, order=case['hd_order'], step=D.build_step(nd, case['step']),
+                                       full_output=True)
+                hd, dinfo = hobj(xin)
         except Exception as exc:
             ctx.reject('hessdiag_raised', observed='%s: %s' % (type(exc).__name__, str(exc)[:150]),
                        method=method, variant=variant, n=n, order=case['hd_order'])
